@@ -22,7 +22,9 @@ CLAIMED = {
                 "grammar's tree for every derivable condition of any size (not binds one operand, cmp > or > and, left "
                 "associativity, parentheses), parens_redundant / parens_operand the parenthesis laws, space_doubling / "
                 "leading_space the whitespace laws, keyword_prefix_words that words beginning with keyword letters are "
-                "identifiers (from the regenerated keyword table); all conditions up to 3-4 operators in three renderings and "
+                "identifiers (from the regenerated keyword table); tokenise_render / text_to_tree (C05_lex) that the tokeniser "
+                "inverts a canonical printer of token lists with any number of extra spaces, so every condition of the grammar "
+                "WRITTEN AS TEXT loads as the grammar's tree; all conditions up to 3-4 operators in three renderings and "
                 "all 3^k assignments are compared with an independent recursive-descent reference on the crate.",
         "note": TB + "Binding powers and keyword table come from tools/gen_tables.py (translator); if the source no longer has the expected shape the translator says so and only the correspondence decides.",
         "technique": "Coq proof (mutual induction over the grammar, precedence-climbing invariant) re-checked against regenerated tables + exhaustive differential sweep",
@@ -94,10 +96,14 @@ CLAIMED.update({
                 "loader accepts has the evaluable shape (every identifier the condition mentions exists -- by an invariant of the "
                 "Pratt parser against the loader's token scan --, every operand of and/or/not is a predicate, fix D3; identifier "
                 "blocks are identifier-free), solve_wf_no_panic that such a rule never panics in matches() on ANY document function, "
-                "loaded_rule_evaluates the corollary incl. validate(). For OPTIMISED rules the panic behaviour is tied by the "
-                "correspondence check over all 16 switch sets on adversarial documents (the model predicts a panic exactly where the "
-                "crate panics); the two known classes D19 (matrix cast=cast cell) and D21 (>= 55297 columns) are listed findings.",
-        "note": TB + "PARTIAL for optimised rules: preservation of the evaluable shape by shake/rewrite/matrix is not proved; it is covered by the differential runs and the D19/D21 classifiers.",
+                "loaded_rule_evaluates the corollary incl. validate(). C03_opt: for every loadable rule and the EIGHT switch sets without "
+                "matrix, optimise returns (optimise_no_matrix_total: every identifier is found, the fuel of shake_0 suffices, rewrite "
+                "falls back), its result is again of evaluable shape (optimised_no_matrix_wf) and matches()/validate() on it never "
+                "panic (optimised_no_matrix_evaluates) -- for every hash order. For the matrix pass the panic behaviour is tied by the "
+                "correspondence check over all 16 switch sets on adversarial documents and the coverage families (the model predicts "
+                "a panic exactly where the crate panics); the two known classes D19 (matrix cast=cast cell) and D21 (>= 55297 "
+                "columns) are listed findings.",
+        "note": TB + "PARTIAL for the matrix switch: that matrix() returns and that its table evaluates without panic outside D19/D21 is stated (Properties/C03_matrix.v) and covered by the differential runs; its proof is in progress.",
         "technique": "Coq proof (parser/loader invariant, size induction over expressions) + differential adversarial-document runs over 16 switch sets",
     },
     "C15": {
@@ -169,7 +175,9 @@ CLAIMED.update({
         "text": "The five passes are modelled function by function with hash-map order as an input. Proved (three-valued, every "
                 "document): coalesce_exact_alt, rewrite_exact (under the one assumption H_strip about the regex library; fix D4), "
                 "shake0_exact_alt (for every fuel, outside the known classes D13/D14), optimise_coalesce_rewrite_exact_alt (whole "
-                "rules, the four switch sets without shake/matrix), exact_implies_verdict; the known classes are refuted on the "
+                "rules, the four switch sets without shake/matrix), exact_implies_verdict; C01_loaded: every condition the Pratt parser "
+                "builds and every body parse_identifier builds meets those shape hypotheses, hence loaded_rule_coalesce_rewrite "
+                "(for EVERY loadable rule the switch sets without shake/matrix keep the verdict) and loaded_body_shake0; the known classes are refuted on the "
                 "model (refuted_D13/D14/D16, D17 and D22 in C12). NOT proved: preservation by shake_1 and matrix; for these the model "
                 "is tied to the crate by the correspondence check (random and forced rules x 6 documents x all 16 switch sets, ALL "
                 "hash orders enumerated in the model) and every crate-side verdict change must be reproduced by the model AND accepted "
